@@ -2,7 +2,7 @@
 From Coq Require Import List Bool.
 Import ListNotations.
 From Mos Require Import Str Xml Outcome Seq Spec Elements Classify Messages Merge Collection Proto.
-From Mos.proofs Require Import CollFacts.
+From Mos.proofs Require Import CollFacts CollOrder.
 
 (* Strict mode: there is a split of the (sorted) message list into the prefix that merged
    without error and the rest; with an empty rest the result is the sequential application of
@@ -34,3 +34,18 @@ Theorem C09_nonstrict :
   r_ws r = loop_ws o rs s.
 Proof. exact nonstrict_loop. Qed.
 Print Assumptions C09_nonstrict.
+(* End to end, from the supplied documents: when the readers can be built and the sorted
+   collection is accepted, a non-strict merge in which no built-in exception escapes (C12) is
+   the sequential addition, in ascending message-ID order, of every message other than the
+   roCreate to the roCreate document, with the warnings of the steps. *)
+Theorem C09_collection_is_sequential_addition :
+  forall (o : oracles) (ds : list xml) (inc : bool) (rs : list reader) (rc : reader)
+         (others : list reader),
+  make_readers ds = inr rs -> validate (sort_readers rs) inc = inr (rc, others) ->
+  all_lib o others (rd_doc rc) = true ->
+  exists r, collection_merge o ds inc false = inr r /\
+    r_err r = None /\
+    r_st r = fold_left (fun st rd => r_st (step o st rd)) others (rd_doc rc) /\
+    r_ws r = loop_ws o others (rd_doc rc).
+Proof. exact collection_merge_is_fold. Qed.
+Print Assumptions C09_collection_is_sequential_addition.
